@@ -688,7 +688,7 @@ func rwGenCase(t *rapid.T, faults bool) rwCase {
 			c.Ops = append(c.Ops, rwGenFault(t, c))
 		}
 	}
-	if !faults && rapid.IntRange(0, 29).Draw(t, "bigBurst") == 0 {
+	if rapid.IntRange(0, 29).Draw(t, "bigBurst") == 0 { // (also among stream failures: C04)
 		// rare: more than 1024 unconfirmed tasks outstanding on one target stream after earlier acks (the proxy-id table
 		// grows while wrapped), then the target confirms in steps
 		src, tg := rapid.IntRange(0, c.NS-1).Draw(t, "bbSrc"), rapid.IntRange(0, c.NT-1).Draw(t, "bbTgt")
